@@ -103,6 +103,9 @@ def run(prop, repo, seed, res):
                     'silent_false_alarm': false_alarm, 'stale': stale, 'errors': errors, 'wall_s': round(time.time() - t0, 2),
                     'details': sorted(details, key=lambda d: d['variant'])}
     bad = [d for d in details if d.get('result', '').startswith(('NOT reported', 'FALSE ALARM', 'analysis error')) or d['status'] == 'error']
+    for d in details:
+        if d['status'] == 'stale':
+            print(f'SELFTEST {prop} {d["variant"]}: stale ({d.get("note")})')
     for d in bad:
         print(f'SELFTEST {prop} {d["variant"]}: {d.get("result") or d.get("note")}')
     print(f'SELFTEST {prop}: {len(vs)} variants: {killed} firing killed, {missed} missed, {silent_ok} silent ok, '
